@@ -325,7 +325,7 @@ func genDenom(r *hlib.Rand) string {
 	if r.Chance(1, 8) {
 		return badDenoms[r.Intn(len(badDenoms))]
 	}
-	return pick(r, "atele", "stake", "ufoo", "a/b-c", "ibc/27394FB092D2ECCD56123C74F36E4C1F926001CEADA9CA97EA622B25F41E5EB2", "aggregate/0x5dCA2483280D9727c80b5518faC4556617fb194F")
+	return pick(r, "atele", "stake", "ufoo", "a/b-c", "abcdef0123456789abcdef0123456789abcdef01", "ABCDEF0123456789abcdef0123456789abcdef0", "ibc/27394FB092D2ECCD56123C74F36E4C1F926001CEADA9CA97EA622B25F41E5EB2", "aggregate/0x5dCA2483280D9727c80b5518faC4556617fb194F")
 }
 
 func genGenA(r *hlib.Rand) *GenASpec {
